@@ -315,49 +315,9 @@ settle:
 		goto settle
 	}
 	// read the final checkpoint back: per (key, split) the count must be the total
-	snaps := w.Snapshots()
-	final := snaps[len(snaps)-1]
-	var jc snapshotpb.JobCheckpoint
-	for path, _ := range w.Loc.List() {
-		if strings.HasSuffix(path, ".snapshot") {
-			data, _ := w.Loc.Read(path)
-			var x snapshotpb.JobCheckpoint
-			if unmarshal(data, &x) == nil && x.Id == final {
-				jc = *(gproto.Clone(&x).(*snapshotpb.JobCheckpoint))
-			}
-		}
-	}
-	got := map[string]int{}
-	for _, oc := range jc.OperatorCheckpoints {
-		db := dkv.Open(dkv.DBOptions{FileSystem: w.FS}, []recovery.CheckpointHandle{{CheckpointID: oc.CheckpointId, URI: oc.DkvFileUri}})
-		w.mu.Lock()
-		w.dbs[db] = true
-		w.mu.Unlock()
-		var scanErr error
-		for e := range db.ScanPrefix(nil, &scanErr) {
-			k := e.Key()
-			if len(k) < 8 || k[2] != 0x00 {
-				continue
-			}
-			g := int(binary.BigEndian.Uint16(k[:2]))
-			if g < int(oc.KeyGroupRange.Start) || g >= int(oc.KeyGroupRange.End) {
-				continue // a foreign key physically left in a shared table
-			}
-			n := int(binary.BigEndian.Uint32(k[3:7]))
-			subject := string(k[7 : 7+n])
-			rest := k[7+n:]
-			nsLen := int(rest[0])
-			split := string(rest[1+nsLen:])
-			var v int
-			json.Unmarshal(e.Value(), &v)
-			if refimpl.KeyGroup([]byte(subject), p.Cfg.Groups) != g {
-				return st, hx.Errf("final checkpoint: state of key %q is stored under group %d", subject, g)
-			}
-			got[subject+"/"+split] = v
-		}
-		if scanErr != nil {
-			return st, hx.Errf("reading the final checkpoint of %s: %v", oc.OperatorId, scanErr)
-		}
+	got, final, err := readFinalStateStable(w, p.Cfg.Groups)
+	if err != nil {
+		return st, err
 	}
 	for k, n := range totals {
 		if got[k] != n {
@@ -1078,7 +1038,7 @@ func restoreFromSavepointDepth(p Program, c *hx.Case, fs *storage.MemoryFilesyst
 	if !published {
 		return fail(hx.Errf("the job restored from the savepoint cannot complete a checkpoint"))
 	}
-	got, err := readFinalState(w, p.Cfg.Groups)
+	got, _, err := readFinalStateStable(w, p.Cfg.Groups)
 	if err != nil {
 		return fail(err)
 	}
@@ -1093,10 +1053,49 @@ func restoreFromSavepointDepth(p Program, c *hx.Case, fs *storage.MemoryFilesyst
 	return chain()
 }
 
+// readFinalStateStable reads the newest job checkpoint back. A checkpoint that
+// was still in flight may be published while the files are read; the job then
+// has the operators drop the one being read (its files may go). So: wait until
+// nothing is in flight, and read again if the newest checkpoint changed meanwhile.
+func readFinalStateStable(w *World, groups int) (map[string]int, uint64, error) {
+	last := func() uint64 {
+		if s := w.Snapshots(); len(s) > 0 {
+			return s[len(s)-1]
+		}
+		return 0
+	}
+	var got map[string]int
+	var final uint64
+	var err error
+	for attempt := 0; attempt < 8; attempt++ {
+		WaitFor(2*time.Second, func() bool {
+			w.mu.Lock()
+			var started uint64
+			for _, id := range w.StartCkpts {
+				started = max(started, id)
+			}
+			w.mu.Unlock()
+			return started <= last()
+		})
+		time.Sleep(300 * time.Microsecond) // the retention update of the last publication reaches the operators
+		before := last()
+		got, final, err = readFinalState(w, groups)
+		if last() == before && (err != nil || final == before) {
+			return got, final, err
+		}
+	}
+	return got, final, err
+}
+
 // readFinalState decodes the newest job checkpoint into per (key/split) counts.
-func readFinalState(w *World, groups int) (map[string]int, error) {
+func readFinalState(w *World, groups int) (got map[string]int, final uint64, err error) {
+	defer func() {
+		if r := recover(); r != nil {
+			err = hx.Errf("reading checkpoint %d back: %v", final, r)
+		}
+	}()
 	snaps := w.Snapshots()
-	final := snaps[len(snaps)-1]
+	final = snaps[len(snaps)-1]
 	var jc *snapshotpb.JobCheckpoint
 	for path := range w.Loc.List() {
 		if strings.HasSuffix(path, ".snapshot") {
@@ -1107,9 +1106,9 @@ func readFinalState(w *World, groups int) (map[string]int, error) {
 			}
 		}
 	}
-	got := map[string]int{}
+	got = map[string]int{}
 	if jc == nil {
-		return got, hx.Errf("checkpoint %d not found in storage", final)
+		return got, final, hx.Errf("checkpoint %d not found in storage", final)
 	}
 	for _, oc := range jc.OperatorCheckpoints {
 		db := dkv.Open(dkv.DBOptions{FileSystem: w.FS}, []recovery.CheckpointHandle{{CheckpointID: oc.CheckpointId, URI: oc.DkvFileUri}})
@@ -1124,7 +1123,7 @@ func readFinalState(w *World, groups int) (map[string]int, error) {
 			}
 			g := int(binary.BigEndian.Uint16(k[:2]))
 			if g < int(oc.KeyGroupRange.Start) || g >= int(oc.KeyGroupRange.End) {
-				continue
+				continue // a foreign key physically left in a shared table
 			}
 			n := int(binary.BigEndian.Uint32(k[3:7]))
 			subject := string(k[7 : 7+n])
@@ -1132,11 +1131,14 @@ func readFinalState(w *World, groups int) (map[string]int, error) {
 			split := string(rest[1+int(rest[0]):])
 			var v int
 			json.Unmarshal(e.Value(), &v)
+			if refimpl.KeyGroup([]byte(subject), groups) != g {
+				return got, final, hx.Errf("final checkpoint: state of key %q is stored under group %d", subject, g)
+			}
 			got[subject+"/"+split] = v
 		}
 		if scanErr != nil {
-			return got, hx.Errf("reading checkpoint %d of %s: %v", final, oc.OperatorId, scanErr)
+			return got, final, hx.Errf("reading checkpoint %d of %s: %v", final, oc.OperatorId, scanErr)
 		}
 	}
-	return got, nil
+	return got, final, nil
 }
